@@ -1078,11 +1078,29 @@ class Executor(Engine):
             for a in list(e.args) + [k.value for k in e.keywords]:
                 if self.has_contracted_call(a):
                     raise Unsupported("contracted call inside exception arguments")
+                if not self.message_cannot_raise(a):
+                    # building the message could itself raise (e.g. "%d" % x, str.format): that would be an exception of
+                    # another type escaping — outside what the engine models, so the function is not verifiable as written
+                    raise Unsupported("exception argument whose construction may raise: " + ast.unparse(a)[:50])
         elif isinstance(e, ast.Name):
             name = e.id
         if name is None or name not in self.repo.exc:
             raise Unsupported(f"raise of {ast.unparse(e)[:40]}")
         return [(st, Outcome("raise", exc=name))]
+
+    def message_cannot_raise(self, node):
+        """Syntactic whitelist for exception-message expressions: constants, names, attributes of names, f-strings of
+        those without format specs, tuples/lists of those. Formatting str/int/list/dict/Record objects cannot raise."""
+        if isinstance(node, (ast.Constant, ast.Name)):
+            return True
+        if isinstance(node, ast.Attribute):
+            return self.message_cannot_raise(node.value)
+        if isinstance(node, ast.JoinedStr):
+            return all(isinstance(p, ast.Constant) or (isinstance(p, ast.FormattedValue) and p.format_spec is None
+                                                        and self.message_cannot_raise(p.value)) for p in node.values)
+        if isinstance(node, (ast.Tuple, ast.List)):
+            return all(self.message_cannot_raise(x) for x in node.elts)
+        return False
 
     def st_If(self, s, st, catching):
         outs = []
